@@ -305,6 +305,108 @@ fn group_cells(out: &mut Vec<Cell>) {
     }
 }
 
+/// unequal slice lengths (the library truncates to the shorter one; the per-thread share must be computed from the
+/// truncated length on both sides), on a short Weierstrass and on a twisted Edwards group
+fn unequal_msm_cells(out: &mut Vec<Cell>) {
+    use ark_bls12_381::{Fr, G1Affine, G1Projective};
+    use ark_ed_on_bls12_381::{EdwardsAffine, EdwardsProjective, Fr as EdFr};
+    let g = G1Projective::generator();
+    let ge = EdwardsProjective::generator();
+    for (nb, ns) in [(33usize, 20usize), (20, 33), (100, 64), (64, 100), (257, 255)] {
+        let bases: Vec<G1Affine> = G1Projective::normalize_batch(&(0..nb).map(|i| g * Fr::from(i as u64 * 5 + 2)).collect::<Vec<_>>());
+        let scalars: Vec<Fr> = (0..ns).map(|i| if i % 3 == 0 { -Fr::from(i as u64 + 1) } else { Fr::from(u64::MAX - i as u64) * Fr::from(7u64) }).collect();
+        out.push(Cell {
+            name: format!("bls12_381_g1/msm_unequal/bases={nb},scalars={ns}"),
+            bound: if nb.max(ns) > 40 { 1 } else { 2 },
+            op: Box::new(move || {
+                let r = G1Projective::msm_unchecked(&bases, &scalars);
+                let bi: Vec<_> = scalars.iter().map(|s| s.into_bigint()).collect();
+                let r2 = G1Projective::msm_bigint(&bases, &bi);
+                let mut b = ser(&r.into_affine());
+                b.extend(ser(&r2.into_affine()));
+                b.push(G1Projective::msm(&bases, &scalars).is_err() as u8);
+                b
+            }),
+        });
+        let eb: Vec<EdwardsAffine> = EdwardsProjective::normalize_batch(&(0..nb).map(|i| ge * EdFr::from(i as u64 * 3 + 1)).collect::<Vec<_>>());
+        let es: Vec<EdFr> = (0..ns).map(|i| if i % 4 == 1 { -EdFr::one() } else { EdFr::from(i as u64 * 1_000_003 + 9) }).collect();
+        out.push(Cell {
+            name: format!("ed_on_bls12_381/msm_unequal/bases={nb},scalars={ns}"),
+            bound: if nb.max(ns) > 40 { 1 } else { 2 },
+            op: Box::new(move || {
+                let r = EdwardsProjective::msm_unchecked(&eb, &es);
+                let mut b = ser(&r.into_affine());
+                let dbl: Vec<EdwardsProjective> = eb.iter().map(|p| p.into_group().double()).collect();
+                b.extend(ser(&EdwardsProjective::normalize_batch(&dbl)));
+                b
+            }),
+        });
+    }
+}
+
+/// operations of `Evaluations`, pointwise products in a domain, multivariate evaluation (the only `.sum()` / `.product()`
+/// reductions over terms), sparse multilinear relabel / fused multiply-add
+fn more_poly_cells<F: FftField + PrimeField>(fname: &str, out: &mut Vec<Cell>) {
+    use ark_poly::multivariate::{SparsePolynomial as MvPoly, SparseTerm, Term};
+    use ark_poly::DenseMVPolynomial;
+    for n in [16usize, 64, 1024] {
+        let a: Vec<F> = fvec(n, 0);
+        let b: Vec<F> = fvec(n, 1);
+        out.push(Cell {
+            name: format!("{fname}/evaluations_ops/n={n}"),
+            bound: if n > 64 { 1 } else { 2 },
+            op: Box::new(move || {
+                let d = GeneralEvaluationDomain::<F>::new(n).unwrap();
+                let ea = Evaluations::from_vec_and_domain(a.clone(), d);
+                let eb = Evaluations::from_vec_and_domain(b.iter().map(|x| *x + F::one()).collect(), d);
+                let mut o = ser(&(&ea + &eb).evals);
+                o.extend(ser(&(&ea - &eb).evals));
+                o.extend(ser(&(&ea * &eb).evals));
+                o.extend(ser(&(&ea * F::from(11u64)).evals));
+                o.extend(ser(&d.mul_polynomials_in_evaluation_domain(&a, &b)));
+                o.extend(ser(&ea.interpolate_by_ref()));
+                o
+            }),
+        });
+    }
+    for nterms in [1usize, 5, 40] {
+        out.push(Cell {
+            name: format!("{fname}/multivariate_evaluate/terms={nterms}"),
+            bound: 2,
+            op: Box::new(move || {
+                let nv = 4usize;
+                let terms: Vec<(F, SparseTerm)> = (0..nterms)
+                    .map(|i| (F::from(i as u64 + 2), SparseTerm::new(vec![(i % nv, 1 + i % 3), ((i + 1) % nv, 1 + (i / 4) % 2), ((i + 2) % nv, i % 2)])))
+                    .collect();
+                let p = MvPoly::from_coefficients_vec(nv, terms);
+                let pt: Vec<F> = (0..nv).map(|i| F::from(i as u64 + 3)).collect();
+                ser(&p.evaluate(&pt))
+            }),
+        });
+    }
+    for nv in [3usize, 7] {
+        let t: Vec<F> = fvec(1 << nv, 1);
+        out.push(Cell {
+            name: format!("{fname}/mle_relabel_fma/nv={nv}"),
+            bound: 2,
+            op: Box::new(move || {
+                let sp: Vec<(usize, F)> = t.iter().enumerate().filter(|(i, _)| i % 3 != 1).map(|(i, v)| (i, *v + F::one())).collect();
+                let s = SparseMultilinearExtension::from_evaluations(nv, &sp);
+                let mut d = DenseMultilinearExtension::from_evaluations_vec(nv, t.clone());
+                let mut o = ser(&s.relabel(0, nv - 1, 1).to_evaluations());
+                let mut s2 = s.clone();
+                s2 += (F::from(5u64), &s);
+                o.extend(ser(&s2.to_evaluations()));
+                let d0 = d.clone();
+                d += (F::from(7u64), &d0);
+                o.extend(ser(&d.to_evaluations()));
+                o.extend(ser(&d0.relabel(0, nv - 1, 1).to_evaluations()));
+                o
+            }),
+        });
+    }
+}
+
 fn pairing_cells<E: Pairing>(ename: &str, lens: &[usize], out: &mut Vec<Cell>) {
     for &n in lens {
         let name = format!("{ename}/multi_pairing/n={n}");
@@ -409,9 +511,14 @@ fn main() {
     poly_cells::<ark_bls12_381::Fr>("bls12_381_Fr", &mut cells);
     poly_cells::<DGold>("DGold", &mut cells);
     group_cells(&mut cells);
+    unequal_msm_cells(&mut cells);
+    more_poly_cells::<ark_bls12_381::Fr>("bls12_381_Fr", &mut cells);
+    more_poly_cells::<DGold>("DGold", &mut cells);
     pairing_cells::<ark_bls12_381::Bls12_381>("bls12_381", if quick { &[0, 1, 4, 5, 9] } else { &[0, 1, 2, 3, 4, 5, 8, 9, 13] }, &mut cells);
     pairing_cells::<ark_mnt4_298::MNT4_298>("mnt4_298", if quick { &[5] } else { &[1, 4, 5, 9] }, &mut cells);
     pairing_cells::<ark_bw6_761::BW6_761>("bw6_761", if quick { &[5] } else { &[1, 4, 5, 9] }, &mut cells);
+    pairing_cells::<ark_bn254::Bn254>("bn254", if quick { &[5] } else { &[1, 4, 5, 9] }, &mut cells);
+    pairing_cells::<ark_mnt6_298::MNT6_298>("mnt6_298", if quick { &[5] } else { &[1, 4, 5, 9] }, &mut cells);
     // thread counts / block counts
     let grid: Vec<(usize, usize)> = if quick { vec![(2, 2), (3, 3), (16, 4)] } else { vec![(1, 3), (2, 2), (3, 3), (4, 4), (7, 5), (16, 4), (17, 3)] };
     let max_runs: u64 = ctx.t(400, 8_000);
